@@ -91,6 +91,8 @@ def gen(tier, seed, chunk, nch):
             while npos < want:
                 argv.append(rng.choice(POST))
                 npos += 1
+        if rng.random() < 0.25:
+            d = dict(d, moved=rng.choice(["MOVE", "MOVEA"]))   # the configured parser is moved before it is used
         case = {"decl": d, "argv": argv, "cfg": ci, "rand": True}
         if rng.random() < 0.3:
             # earlier calls on the same parser: too many positionals, an unknown option behind positionals,
@@ -118,6 +120,8 @@ def evaluate(case, lines, S):
     pos, greedy = CONFIGS[case["cfg"]]
     cfg = "limit=%s:greedy=%d" % (pos, greedy)
     S.counters["cfg:" + cfg] += 1
+    if d.get("moved"):
+        S.counters["parser-moved-before-use:" + d["moved"]] += 1
     if case.get("scale"):
         S.counters["scale:positionals>=%d" % max(x for x in [0, 17, 257, 4097, 65536] if x <= len(argv))] += 1
     if any(t == b"--" or not t.startswith(b"-") for t in argv):
